@@ -274,6 +274,17 @@ def run_oracle(ctx, cases):
     for c in cases:
         if c["code"] is None:
             continue
+        I0 = A._imports()
+        defs = [x.label for x in c["asm"] if isinstance(x, I0.Label)] + \
+               [x.label.label for x in c["asm"] if isinstance(x, I0.DataHeader)] + ["code_end"]
+        cdefs = [x.name for x in c["asm"] if isinstance(x, I0.CONST)]
+        if len(set(defs)) != len(defs) or len(set(cdefs)) != len(cdefs):
+            found += 1
+            if len(known_reported) < 100 and sum(1 for x in known_reported if x == "dup") < 2:
+                known_reported.append("dup")
+                ctx.violation("failing-input", "assembler accepts a duplicate label/constant definition (one silently "
+                              "shadows the other)", describe(c), key=f"c16:dup:{c['evm']}:{sorted(defs)[:3]}")
+            continue
         if "cfg" not in c and (c["kind"] not in ("random-wf", "all-widths", "cross-ffff-wf") or not c["in_domain"]):
             continue  # PUSH of a value outside [0, 2^256) is outside the property's domain (see notes/C16.md)
         probs = A.oracle(c["asm"], c["code"], c["sm"], c["cm"], has_push0(c["evm"]), yp.get, evm=c["evm"])
@@ -296,7 +307,7 @@ def run_oracle(ctx, cases):
         d["bytecode"] = c["code"].hex()[:4000]
         if postamble:
             # genuine defect of the unchanged tree (see notes/C16.md Findings): reported once, stable key
-            if not known_reported:
+            if 1 not in known_reported:
                 known_reported.append(1)
                 d["cause"] = ("vyper/venom/venom_to_assembly.py:_REVERT_POSTAMBLE = [Label('revert'), *PUSH(0), 'DUP1', "
                               "'REVERT'] is evaluated at import time under the default EVM version, so the byte 0x5f "
